@@ -155,11 +155,11 @@ def gen_lexicon(rng, lid, version, lang, ilis, lmfv, size=4, requires=None):
     else:
         for e in lex['entries']:
             fr = []
-            for j in range(rng.choice([0, 0, 1, 2])):
+            for j in range(rng.choice([0, 1, 2, 2, 3])):
                 f = {'subcategorizationFrame': 'Somebody %d ----s' % rng.randint(0, 3)}
                 if f['subcategorizationFrame'] in [x['subcategorizationFrame'] for x in fr]:
                     continue
-                if rng.random() < 0.6:
+                if rng.random() < 0.5:
                     f['senses'] = sorted(set(rng.choice(e['senses'])['id'] for _ in range(rng.choice([1, 2]))))
                 fr.append(f)
             if fr:
